@@ -26,7 +26,8 @@
    functions keep exactly `hugr` type parameters. *)
 EXTENDS TypeAlg, Integers, Json
 
-CONSTANTS MaxSlots
+CONSTANTS MaxSlots,
+          OnlyEq     \* BOOLEAN: enumerate only the equal-arguments cases (see ValidCase)
 
 TNames == <<"T0", "T1">>
 NNames == <<"n0", "n1">>
@@ -57,16 +58,22 @@ ArgsCD == {TInt, TFloat, TBool, TTup(<<TInt, TBool>>)}
 ArgsL == {TFloat, TArr(TInt, NatC("2"))}
 \* a case: slots, bound of each type variable, instantiation of each variable
 CaseIds ==
-    UNION {{[slots |-> ss, bound |-> bd, targ |-> ta, narg |-> na]
-              : bd \in {f \in [TVars(ss) -> {"CD", "L"}] : \A tv \in TVars(ss) : NeedsCD(ss, tv) => f[tv] = "CD"},
+    UNION {{[slots |-> ss, bound |-> bd, targ |-> ta, narg |-> na, eq |-> e]
+              : e \in (IF OnlyEq THEN {TRUE} ELSE BOOLEAN),
+                bd \in {f \in [TVars(ss) -> {"CD", "L"}] : \A tv \in TVars(ss) : NeedsCD(ss, tv) => f[tv] = "CD"},
                 ta \in [TVars(ss) -> ArgsCD \cup ArgsL],
                 na \in {f \in [NVars(ss) -> {1, 2, 3}] : \A nv \in NVars(ss) : f[nv] = (IF nv = 0 THEN 3 ELSE 1)
                                                                                \/ (nv = 0 /\ f[nv] = 2)}}
-           : ss \in SlotSeqs}
+           : ss \in {x \in SlotSeqs : OnlyEq => Cardinality({j \in DOMAIN x : x[j][1] \in {"K", "D"}}) >= 2}}
 ValidCase(c) ==
     /\ \A tv \in TVars(c.slots) : c.targ[tv] \in (IF c.bound[tv] = "CD" THEN ArgsCD ELSE ArgsL)
-    \* different variables get different arguments, so that a swap is visible
-    /\ (TVars(c.slots) = {0, 1}) => c.targ[0] # c.targ[1]
+    \* different variables get different arguments, so that a swap is visible ...
+    /\ (TVars(c.slots) = {0, 1} /\ ~c.eq) => c.targ[0] # c.targ[1]
+    \* ... except in the `eq` cases: there all comptime constants (and both type variables)
+    \* are given EQUAL arguments - parameters are positions, not values, and a compiler
+    \* that identifies monomorphised parameters by their argument goes wrong exactly here
+    /\ c.eq => /\ Cardinality({j \in DOMAIN c.slots : c.slots[j][1] \in {"K", "D"}}) >= 2
+               /\ (TVars(c.slots) = {0, 1}) => c.targ[0] = c.targ[1]
 Cases == {c \in CaseIds : ValidCase(c)}
 
 \* ---- signatures: check_signature ----------------------------------------------------
@@ -135,15 +142,16 @@ ValOf(t, pos) ==
       [] t[1] = "bool" -> <<"bool", pos % 2 = 0>>
       [] t[1] = "tup" -> <<"tup", << <<"int", 20 + pos>>, <<"bool", pos % 2 = 1>> >> >>
       [] t[1] = "arr" -> <<"arr", << <<"int", 30 + pos>>, <<"int", 40 + pos>> >> >>
-KVal(pos) == IF pos % 2 = 1 THEN 7 ELSE 0 - 3
+KVal(c, pos) == IF c.eq \/ pos % 2 = 1 THEN 7 ELSE 0 - 3
 MVal(pos) == 4 + pos
 ArrVals(c, pos) == [e \in 1..c.narg[c.slots[pos][2]] |-> <<"int", 100 * pos + e>>]
 ActualVal(c, pos) ==
     LET s == c.slots[pos] IN
-    CASE s[1] \in {"V", "D"} -> ValOf(c.targ[s[2]], pos)
+    CASE s[1] = "V" -> ValOf(c.targ[s[2]], pos)
+      [] s[1] = "D" -> ValOf(c.targ[s[2]], IF c.eq THEN 0 ELSE pos)
       [] s[1] = "B" -> <<"box", ValOf(c.targ[s[2]], pos)>>
       [] s[1] = "A" -> <<"arr", ArrVals(c, pos)>>
-      [] s[1] = "K" -> <<"int", KVal(pos)>>
+      [] s[1] = "K" -> <<"int", KVal(c, pos)>>
       [] s[1] = "M" -> <<"nat", MVal(pos)>>
 ActualType(c, pos) ==
     LET s == c.slots[pos] IN
@@ -261,12 +269,12 @@ SumOver(c, pos) ==
     IF pos = 0 THEN 0
     ELSE SumOver(c, pos - 1) +
          (CASE c.slots[pos][1] = "A" -> SumInts(ArrVals(c, pos))
-            [] c.slots[pos][1] = "K" -> KVal(pos)
+            [] c.slots[pos][1] = "K" -> KVal(c, pos)
             [] OTHER -> 0)
 Expected(c) ==
     LET foo == sg.foo
         consts == SeqFlatten([pos \in DOMAIN c.slots |->
-                      CASE c.slots[pos][1] = "K" -> << <<KN[pos], <<"int", KVal(pos)>> >> >>
+                      CASE c.slots[pos][1] = "K" -> << <<KN[pos], <<"int", KVal(c, pos)>> >> >>
                         [] c.slots[pos][1] = "M" -> << <<MN[pos], <<"nat", MVal(pos)>> >> >>
                         [] OTHER -> <<>>])
         nats == SeqFlatten([k \in DOMAIN foo.params |->
@@ -315,7 +323,7 @@ OpenIsHugrExpressible ==
 Emit ==
     Done =>
       PrintT(ToJson([
-        id |-> [slots |-> cs.slots, bound |-> [tv \in TVars(cs.slots) |-> cs.bound[tv]],
+        id |-> [slots |-> cs.slots, eq |-> cs.eq, bound |-> [tv \in TVars(cs.slots) |-> cs.bound[tv]],
                 targ |-> [tv \in TVars(cs.slots) |-> cs.targ[tv]], narg |-> [nv \in NVars(cs.slots) |-> cs.narg[nv]]],
         actuals |-> [j \in DOMAIN cs.slots |-> ActualVal(cs, j)],
         foo |-> [generic |-> sg.foo, mono |-> fooMono, full |-> FooFull,
